@@ -3,4 +3,4 @@ Require Import ExtrOcamlBasic.
 From Coq Require Import List ZArith QArith.
 From QV Require Import Tensor.Sums Tensor.Net Tensor.StartStop Tensor.Contract Tensor.ContractZ.
 Extraction "c11.ml" mk_tensorZ dimsZ entriesZ contractZ contract_bondsZ valueZ inner_productZ contract_pairwiseZ
-  contract_ladderZ as_scalarZ transpose_netZ truncateZ bond_dimensionZ start_stop_bools slice_indices py_range split_contractZ.
+  contract_ladderZ as_scalarZ transpose_netZ truncateZ bond_dimensionZ start_stop_bools slice_indices py_range split_contractZ netwfbZ.
